@@ -44,6 +44,17 @@ def p4Checker (tags : List String) : Checker :=
       else if tags.contains f.prop then some (.oracle s!"[{f.prop}] {f.msg}")
       else none)⟩
 
+/-- traces that contain runs on both datapaths: a `cfg` line with a `p4` object switches to the UP4 acceptor -/
+def dualChecker (tags : List String) : Checker :=
+  ⟨Bool × Sys.St × P4.St4, (false, {}, {}), fun (isP4, ss, ps) n l =>
+    let isP4 := if (l.splitOn "\"k\":\"cfg\"").length > 1 then (l.splitOn "\"p4\":{").length > 1 else isP4
+    if isP4 then
+      let (ps', vs) := (p4Checker tags).step ps n l
+      ((isP4, ss, ps'), vs)
+    else
+      let (ss', vs) := (sysChecker tags).step ss n l
+      ((isP4, ss', ps), vs)⟩
+
 def checker (prop : String) : Option Checker :=
   match prop with
   | "C01" => some (stateless C01.check)
@@ -58,7 +69,7 @@ def checker (prop : String) : Option Checker :=
   | "C20" => some (stateless C20.check)
   | "C03" => some (sysChecker ["C03", "C01"])
   | "C02" => some (sysChecker ["C02", "C01", "C07"])
-  | "C05" => some (sysChecker ["C05", "C01", "C06"])
+  | "C05" => some (dualChecker ["C05", "C01", "C06"])
   | "C14" => some (sysChecker ["C14", "C01"])
   | "C09" => some ⟨Sys.St, {}, C09.step⟩
   | "C13" => some ⟨Sys.St, {}, C13.step⟩
